@@ -886,7 +886,7 @@ func (p *parser) parseForStatement() Node {
 		forNode.Range = n
 	case ARRAY:
 		if forNode.LoopVar != nil {
-			forNode.LoopVar.T = t.infer().Sub
+			forNode.LoopVar.T = fixedType(t.infer().Sub) // a loop variable is a variable
 		}
 		forNode.Range = n
 	case NUM:
